@@ -282,6 +282,14 @@ def _reverse_shard(args):
             continue
         ch = chr(cp)
         for enc in encodings:
+            try:
+                if ch.encode(enc).decode(enc) != ch:
+                    # the codec itself does not round-trip this character (Python's shift_jis maps U+00A2 to the bytes
+                    # it decodes as U+FFE0): nothing the serializer could do about it; codec correctness is assumed
+                    res["codec_not_roundtrip"] = res.get("codec_not_roundtrip", 0) + 1
+                    continue
+            except (UnicodeError, LookupError):
+                pass
             for where in ("text", "attr"):
                 text = "a" + ch + "b"
                 res["evals"] += 1
